@@ -8,7 +8,7 @@ from ..idioms import empty_fact, vec_empty_fact
 from ..engines.schemas import range_parts, sum_parts, resolve_iter
 from .. import lemmas
 from .common import configs_for, has_feature
-from .util import Rule, guarded, site_of_block
+from .util import Rule, guarded, site_of_block, check_visits_all
 from . import models
 
 TITLE = "Wrapping preserves the text: lines are in-order slices of the input"
@@ -58,6 +58,7 @@ def _r123(prog, rep):
     r2 = Rule(rep, "C01.R2", fn, site=body.span)
     r3 = Rule(rep, "C01.R3", fn, site=body.span)
     r1.check(m.idx0 == ("int", 0), "idx-init", "the byte offset starts at 0", D(m.idx0), "the running offset starts at %s" % D(m.idx0))
+    check_visits_all(r1, body, m.lm, "the reassembly loop over the arranged lines")
     n_slice = 0
     for rec in m.recs:
         tr = rec.tr
